@@ -26,11 +26,45 @@ def run_one(pid, tier, seed):
         except AnchorMissing as e:
             rep.rule("anchor", "anchored functions/types of the property exist exactly once")
             rep.bad("missing", str(e))
+        if tier == "thorough":
+            thorough_extra(pid, mod, ctx, rep, seed)
         return core.emit(rep, *mod.META)
     except facts.BuildFailed as e:
         return core.fail_closed(pid, tier, seed, e.what, e.log)
     except Exception:
         return core.fail_closed(pid, tier, seed, "checker crashed (fail closed)", traceback.format_exc())
+
+
+MIR_PROPS = {"C08", "C09", "C11", "C12", "C15", "C16"}
+LIB_PROPS = {"C13": ["ariadne"], "C08": ["sqlparser"], "C09": ["sqlparser"]}
+
+
+def thorough_extra(pid, mod, ctx, rep, seed):
+    """Thorough tier: (1) the MIR-based rules again on the library as the language bindings build it
+    (--no-default-features: no cli, no serde_yaml cfgs), (2) re-verification of the vendored-library oracles."""
+    if pid in MIR_PROPS:
+        ctx2 = core.Ctx("thorough", seed, features=["--no-default-features"])
+        ctx2._syn = ctx.syn
+        rep2 = core.Report(pid, "thorough", seed)
+        try:
+            mod.run(ctx2, rep2)
+        except AnchorMissing as e:
+            rep2.rule("anchor", "anchors")
+            rep2.bad("missing", str(e))
+        main_keys = {v["key"] for v in rep.violations}
+        n_new = 0
+        for rid, r in rep2.rules.items():
+            rid2 = rid + "@no-default-features"
+            rep.rules[rid2] = {"desc": r["desc"] + " [config: --no-default-features]", "floor": 0, "instances": r["instances"], "nontrivial": r["nontrivial"]}
+        for v in rep2.violations:
+            if v["key"] not in main_keys:
+                v2 = dict(v, key=v["key"], rule=v["rule"] + "@no-default-features", msg="[--no-default-features] " + v["msg"])
+                rep.violations.append(v2)
+                n_new += 1
+        rep.note(f"thorough: rules re-evaluated on the --no-default-features build ({sum(len(r['instances']) for r in rep2.rules.values())} instances, {n_new} additional violation(s))")
+    if pid in LIB_PROPS:
+        import libcheck
+        libcheck.run(rep, LIB_PROPS[pid])
 
 
 def main(argv):
